@@ -310,7 +310,10 @@ fn table_1d(args: &Args, ev: &mut Ev, full: bool) {
                         // validity must not depend on how the data are stored
                         match case % 4 {
                             1 => spec.data_lay = vh::lay::Layout::f(shape.len()),
-                            2 => spec.data_lay = vh::lay::Layout::reversed(shape.len()),
+                            2 => {
+                                spec.data_lay = vh::lay::Layout::reversed(shape.len());
+                                spec.x_lay = vh::lay::Layout::reversed(1);
+                            }
                             3 => {
                                 let mut r = Rng::derive(7, "C10-layout", &[case]);
                                 spec.data_lay = vh::lay::Layout::random(&mut r, shape.len());
